@@ -98,6 +98,11 @@ func referenceServerChecks(handler http.Handler, errPrinter internal.Printer) ht
 				// will NOT enforce it. That way, we can test that the client is actually enforcing it.
 				// We record the timeout in a context value, so that we can correctly include it in the
 				// RPC response's request info.
+				if req.Trailer == nil {
+					// Unannounced trailers are stored in the server's request when its body is
+					// read: make sure the copy made here shares the map they are stored in.
+					req.Trailer = http.Header{}
+				}
 				req = req.WithContext(contextWithTimeout(req.Context(), timeout))
 			}
 		}
